@@ -369,13 +369,26 @@ class FnTr:
             code, ty, *steps = self.spec.subst[txt]        # (code, type) or (code, type, [fallible steps evaluated before it])
             return list(steps[0]) if steps else [], code, parse_type(ty)
         for h in EXPR_HOOKS:
-            r = h(self, e, want)
+            snap = self.snapshot()         # a hook that probes (translates a sub-expression to learn its type) and then declines leaves no trace
+            try:
+                r = h(self, e, want)
+            except Untranslatable:
+                r = None
             if r is not None:
                 return r
+            self.restore(snap)
         m = getattr(self, "e_" + type(e).__name__, None)
         if m is None:
             raise Untranslatable(f"{self.spec.lean}: expression `{txt}`")
         return m(e, want)
+
+    def snapshot(self):
+        return (self.tmp, dict(self.extra_vars), list(self.aux), self.nloop, dict(self.vars), dict(getattr(self, "cur", {})))
+
+    def restore(self, snap):
+        self.tmp, self.extra_vars, self.aux, self.nloop, self.vars = snap[0], snap[1], snap[2], snap[3], snap[4]
+        if hasattr(self, "cur"):
+            self.cur = snap[5]
 
     def bindname(self):
         n = f"t{self.tmp}"
@@ -1527,9 +1540,14 @@ class FnTr:
             new = ast.parse(textwrap.dedent(self.spec.stmt_subst[txt])).body
             return self.block(new)
         for h in STMT_HOOKS:
-            r = h(self, s)
+            snap = self.snapshot()
+            try:
+                r = h(self, s)
+            except Untranslatable:
+                r = None
             if r is not None:
                 return r
+            self.restore(snap)
         m = getattr(self, "s_" + type(s).__name__, None)
         if m is None:
             raise Untranslatable(f"{self.spec.lean}: statement `{txt.splitlines()[0]}`")
